@@ -1,4 +1,7 @@
 pub mod c01;
+pub mod c02;
+pub mod c14;
+pub mod contract;
 pub mod cgen;
 pub mod cview;
 
@@ -7,6 +10,8 @@ use crate::sim::runner::{run_prop, RunArgs};
 pub fn dispatch(id: &str, args: &RunArgs) -> i32 {
     match id {
         "C01" => run_prop(&c01::C01, args),
+        "C02" => run_prop(&c02::C02, args),
+        "C14" => run_prop(&c14::C14, args),
         _ => {
             eprintln!("unknown property id {id}");
             2
